@@ -46,9 +46,12 @@ struct Config {
     bool daily() const { return opts & 2; }
     bool compress() const { return opts & 4; }
 };
-const char *SHAPE_NAME[] = { "app.log", "app", "a+b.log" };
-const char *SHAPE_BASE[] = { "app", "app", "a+b" };
-const char *SHAPE_SUFFIX[] = { "log", "", "log" };
+// shape 3 = shape 0 plus an OBSTACLE: a directory sits where the first rotated file of the first day would go, so that rotation's
+// rename fails without any injected fault (the sink must then keep appending; nothing may be lost)
+const char *SHAPE_NAME[] = { "app.log", "app", "a+b.log", "app.log" };
+const char *SHAPE_BASE[] = { "app", "app", "a+b", "app" };
+const char *SHAPE_SUFFIX[] = { "log", "", "log", "log" };
+const char *OBSTACLE = "app.2024-02-28.1.log";
 
 std::vector<std::string> decoysFor(int shape)
 {
@@ -56,6 +59,7 @@ std::vector<std::string> decoysFor(int shape)
     case 0: return { "app.2000-01-01.1.log.bak", "app.2000-01-01.1.logx", "xapp.2000-01-01.1.log", "app.2000-1-1.1.log", "app.2000-01-01.a.log",
                      "app2000-01-01.1.log", "other.2000-01-01.1.log", "app.log.2000-01-01.1", "app.2000-01-01.1", "app.2000-01-01.1.log.gz.tmp",
                      "app.2000-01-01.1.txt", "app.2000-01-01..log", "app.log.1" };
+    case 3: return { };
     case 1: return { "app.2000-01-01.1.log", "app.2000-01-01.1x", "xapp.2000-01-01.1", "app.2000-01-01", "app.2000-01-01.1.gz.bak", "app2000-01-01.1", "app.1" };
     default: return { "aab.2000-01-01.1.log", "a+b.2000-01-01.1.logx", "aa+b.2000-01-01.1.log", "ab.2000-01-01.1.log", "a+b.2000-01-01.1" };
     }
@@ -105,6 +109,7 @@ std::vector<Entry> snapshot(const std::string &dir, const std::map<std::string, 
             if (!strcmp(e->d_name, ".") || !strcmp(e->d_name, "..")) continue;
             Entry en; en.name = e->d_name;
             std::string p = dir + "/" + en.name;
+            { struct stat st; if (lstat(p.c_str(), &st) == 0 && S_ISDIR(st.st_mode)) continue; }   // the obstacle directory of shape 3 is not a log file
             if (skip) { auto it = skip->find(en.name); if (it != skip->end()) { struct stat st; if (::stat(p.c_str(), &st) == 0 && (size_t)st.st_size == it->second.size()) { en.bytes = it->second; out.push_back(std::move(en)); continue; } } }
             FILE *f = fopen(p.c_str(), "rb");
             if (f) { char buf[65536]; size_t n; while ((n = fread(buf, 1, sizeof buf, f)) > 0) en.bytes.append(buf, n); fclose(f); }
@@ -246,6 +251,7 @@ struct World {
             struct stat st;
             if (::stat((dir + "/" + n).c_str(), &st) != 0) putFile(dir + "/" + n, decoys[n]); // kept across histories while intact (see wipeKeeping)
         }
+        if (c.shape == 3) mkdir((dir + "/" + OBSTACLE).c_str(), 0700);
         vdev::active = true;
         installMonitor();
         open();
@@ -348,15 +354,23 @@ struct World {
             } else if (!strcmp(c.name, "rename") || !strcmp(c.name, "link")) {
                 std::string nm2 = c.path2.substr(c.path2.rfind('/') + 1);
                 struct stat st;
-                if (c.path != path) violate("C10:rename-source", std::string(c.name) + " of '" + nm + "' (not the active file)");
+                Scheme src = parseScheme(nm, cfg.shape), s = parseScheme(nm2, cfg.shape);
+                bool srcActive = c.path == path, srcRotated = src.ok, srcForeign = decoys.count(nm) > 0;
+                // Moving the ACTIVE file away is the rotation. Publishing a scratch file (a temporary name, or an unnamed file linked in
+                // through its descriptor) under a fresh name is harmless whatever the name - that is how a careful implementation would
+                // write the .gz. What may never be moved away is a rotated file (history disappears under another name) or a foreign file.
+                if (srcRotated || srcForeign) violate("C10:rename-source", std::string(c.name) + " of '" + nm + "' (a rotated or foreign file is moved away)");
                 if (vdev::existsReal(c.path2.c_str(), &st)) violate("C09:overwrite", std::string(c.name) + " onto existing '" + nm2 + "'");
-                Scheme s = parseScheme(nm2, cfg.shape);
-                if (!s.ok || s.gz) violate("C09:bad-rotated-name", "rotated name '" + nm2 + "' does not follow <base>.<date>.<index>[.<suffix>]");
-                else if (everNames.count(s.identity)) violate("C09:name-reused", "rotated name '" + nm2 + "' was used before");
-                if (!strcmp(c.name, "rename")) rotations++;
+                if (srcActive) {
+                    if (!s.ok || s.gz) violate("C09:bad-rotated-name", "rotated name '" + nm2 + "' does not follow <base>.<date>.<index>[.<suffix>]");
+                    else if (everNames.count(s.identity)) violate("C09:name-reused", "rotated name '" + nm2 + "' was used before");
+                    if (!strcmp(c.name, "rename")) rotations++;
+                }
             } else if (!strcmp(c.name, "open")) {
                 struct stat st;
-                if ((c.flags & O_TRUNC) && vdev::existsReal(c.path.c_str(), &st) && st.st_size > 0)
+                // truncating a leftover scratch file is nobody's loss; the active file, rotated files and foreign files hold data
+                bool dataFile = c.path == path || parseScheme(nm, cfg.shape).ok || decoys.count(nm) > 0;
+                if ((c.flags & O_TRUNC) && dataFile && vdev::existsReal(c.path.c_str(), &st) && st.st_size > 0)
                     violate("C10:truncate", "open(O_TRUNC) of non-empty '" + nm + "' (" + std::to_string((long)st.st_size) + " bytes)");
             } else if (!strcmp(c.name, "ftruncate")) {
                 violate("C10:truncate", "ftruncate of '" + nm + "'");
